@@ -1004,3 +1004,95 @@ func InLoop(b *ssa.BasicBlock) bool {
 	}
 	return false
 }
+
+// AccessPath gives a canonical name to the memory location / value v denotes, so that the
+// repeated loads go/ssa emits for one source variable (no CSE; parameters captured by a closure
+// or address-taken live in a cell that is re-loaded at every use) compare equal. Cells with
+// more than one store are not canonicalised (the path then names the individual load).
+func AccessPath(v ssa.Value) string {
+	return accessPath(v, 0)
+}
+
+func accessPath(v ssa.Value, d int) string {
+	if v == nil || d > 10 {
+		return ""
+	}
+	switch x := v.(type) {
+	case *ssa.Parameter:
+		return "P:" + x.Name()
+	case *ssa.FreeVar:
+		return "FV:" + x.Name()
+	case *ssa.Global:
+		return "G:" + x.String()
+	case *ssa.Const:
+		return "C:" + x.String()
+	case *ssa.Alloc:
+		if s := singleStore(x); s != nil {
+			return accessPath(s.Val, d+1)
+		}
+		return fmt.Sprintf("A:%p", x)
+	case *ssa.UnOp:
+		if x.Op == token.MUL {
+			return accessPath(x.X, d+1)
+		}
+	case *ssa.FieldAddr:
+		b := accessPath(x.X, d+1)
+		if b == "" {
+			return ""
+		}
+		return b + "." + fieldName(x.X.Type(), x.Field)
+	case *ssa.Field:
+		b := accessPath(x.X, d+1)
+		if b == "" {
+			return ""
+		}
+		return b + "." + fieldName(x.X.Type(), x.Field)
+	case *ssa.ChangeType:
+		return accessPath(x.X, d+1)
+	case *ssa.MakeInterface:
+		return accessPath(x.X, d+1)
+	case *ssa.Extract:
+		return fmt.Sprintf("%s#%d", accessPath(x.Tuple, d+1), x.Index)
+	}
+	return fmt.Sprintf("V:%p", v)
+}
+
+// singleStore returns the only Store into local cell a (nil if none or several, or if the
+// cell's address escapes to anything but closures and loads).
+func singleStore(a *ssa.Alloc) *ssa.Store {
+	var st *ssa.Store
+	refs := a.Referrers()
+	if refs == nil {
+		return nil
+	}
+	for _, r := range *refs {
+		switch r := r.(type) {
+		case *ssa.Store:
+			if r.Addr != ssa.Value(a) {
+				return nil // the address itself is stored somewhere
+			}
+			if st != nil {
+				return nil
+			}
+			st = r
+		case *ssa.UnOp, *ssa.FieldAddr, *ssa.MakeClosure, *ssa.DebugRef:
+		default:
+			return nil
+		}
+	}
+	return st
+}
+
+// SameValue: identical SSA value or same canonical access path.
+func SameValue(a, b ssa.Value) bool {
+	if a == b {
+		return true
+	}
+	pa := AccessPath(a)
+	return pa != "" && pa == AccessPath(b)
+}
+
+// Is returns a predicate matching values that denote the same value/location as target.
+func Is(target ssa.Value) func(ssa.Value) bool {
+	return func(v ssa.Value) bool { return SameValue(v, target) }
+}
